@@ -31,6 +31,19 @@ def run(ctx):
                 data = bytes([b0]) + gen.rbytes(rng, rng.choice([0, 1, 3]))
                 camp.parse(prog, con, data, 0, {})
             camp.parse(prog, con, b"", 0, {})
+            # the compiled instance enforces the same constraints (generated code has its own tests for labels and constants)
+            if i % 3 == 0:
+                try:
+                    comp = con.compile()
+                except Exception:
+                    comp = None
+                if comp is not None:
+                    oprog = {"k": "Opaque", "desc": "compiled"}
+                    for b0 in (range(256) if i % 12 == 0 or not quick else rng.sample(range(256), 16)):
+                        data = bytes([b0]) + b"\x01\x00"
+                        i1, _ = camp.parse(prog, con, data, 0, {})
+                        i2, _ = camp.parse(oprog, comp, data, 0, {})
+                        camp.sh.session("C04.equiv", [i1, i2])
             # build: domain values, neighbours, labels
             vals = U.c13_values(rng, prog)
             core = prog["subs"][0]["sub"] if prog["k"] == "Struct" and prog["subs"][0].get("name") == "x" else prog
@@ -38,6 +51,10 @@ def run(ctx):
             if core["k"] in ("Const", "OneOf", "NoneOf", "Enum", "FlagsEnum", "Mapping"):
                 extra = list(range(-2, 258)) if (i % 4 == 0 or not quick) else rng.sample(range(-2, 258), 30)
                 extra += [None, "", "one", "two | one", " a|b ", "a|zz", {"a": True, "_p": 1}, {"a": False}, b"A", b"MZ\x00", 0.0, True, False, []]
+            if core["k"] == "Enum":
+                # a label object that came from another Enum (a str that carries the other mapping's integer): the label counts, not the integer
+                import construct as cs
+                extra += [cs.EnumIntegerString.new(9, "one"), cs.EnumIntegerString.new(0, "two"), cs.EnumIntegerString.new(1, "nosuch"), cs.EnumIntegerString.new(2, "three")]
             for v in vals:
                 camp.build(prog, con, v, b"", {})
             for v in extra:
@@ -56,7 +73,7 @@ def run(ctx):
             if k in common.ERRCLASS_KINDS and (v["exp"]["err"] == "ExplicitError" or v["got"]["err"] == "ExplicitError"):
                 return True
             return False
-        campaign.judge(ctx, camp, vs, conformance=conf)
+        campaign.judge(ctx, camp, vs, conformance=conf, clauses=("C04.equiv",))
         for cid, m in camp.sh.meta.items():
             if "case" in m and not m["case"]["res"]["ok"]:
                 nt += 1
